@@ -8,6 +8,7 @@ pub mod c01;
 pub mod c02;
 pub mod c03;
 pub mod c04;
+pub mod c05;
 pub mod c06;
 pub mod c07;
 pub mod c08;
@@ -26,7 +27,7 @@ pub mod c20;
 
 use crate::framework::Run;
 
-pub const ALL: [&str; 19] = ["C01", "C02", "C03", "C04", "C06", "C07", "C08", "C09", "C10", "C11", "C12", "C13", "C14", "C15", "C16", "C17", "C18", "C19", "C20"];
+pub const ALL: [&str; 20] = ["C01", "C02", "C03", "C04", "C05", "C06", "C07", "C08", "C09", "C10", "C11", "C12", "C13", "C14", "C15", "C16", "C17", "C18", "C19", "C20"];
 
 pub fn dispatch(id: &str, run: &mut Run) -> Option<&'static str> {
     match id {
@@ -34,6 +35,7 @@ pub fn dispatch(id: &str, run: &mut Run) -> Option<&'static str> {
         "C02" => Some(c02::run(run)),
         "C03" => Some(c03::run(run)),
         "C04" => Some(c04::run(run)),
+        "C05" => Some(c05::run(run)),
         "C06" => Some(c06::run(run)),
         "C07" => Some(c07::run(run)),
         "C08" => Some(c08::run(run)),
